@@ -152,7 +152,7 @@ def total3(ctx) -> List[Ob]:
                                ["call path: " + " -> ".join(f.qualname for f in (cg.path(roots[0], fn) or []))]))
             elif isinstance(n, ast.Call) and isinstance(n.func, ast.Name) and n.func.id == "next" and len(n.args) == 1 and isinstance(n.args[0], ast.Call) and isinstance(n.args[0].func, ast.Name) and n.args[0].func.id == "iter":
                 src = n.args[0].args[0] if n.args[0].args else n
-                key = "next(iter) " + A.alpha_key(A.enclosing_stmt(n) or n)
+                key = "next(iter) of " + A.alpha_key(src)
                 where = ctx.where(fn, n)
                 if fo._singleton_guard(n, src):
                     out.append(ok("TOTAL-3", fn.qualname, key, where, f"{A.unparse(n)} under a guard that {A.unparse(src)[:30]} is non-empty (exactly one element)"))
